@@ -1318,7 +1318,6 @@ func (e *Exec) newError(msg string) Value {
 	return e.callSSAraw(nil, fn, []Value{msg}, nil)
 }
 
-
 // sortSlice models sort.Slice / sort.SliceStable as an insertion sort that calls the real less
 // closure and forks on its (possibly symbolic) result; every swap goes through the frame monitor.
 // (sort.Slice is not stable natively: the order of equal elements is one of the allowed outcomes.)
